@@ -111,6 +111,31 @@ def compare(ctx, snap, msg, j):
             bad("%s" % name, diff, "(see left: message vs snapshot)")
 
 
+def text_cases(ctx, n):
+    """The text sanitiser of push/__init__.py against Wire.sanitize (in Coq)."""
+    import deep.push as push_mod
+    from ..lib import coqlit as L
+    fn = getattr(push_mod, "_%s__text" % "push", None) or push_mod.__dict__.get("__text")
+    rng = ctx.rng
+    lits, cj = [], []
+    alphabet = ["a", "é", "日", "\ud800", "\udfff", "\udc00", "\U0001F600", "\\", "u", "d", "8", "0", " ", "\ud7ff", "\ue000"]
+    for _ in range(n):
+        t = "".join(rng.choice(alphabet) for _ in range(rng.choice([0, 1, 3, 8, 20])))
+        try:
+            out = fn(t)
+        except BaseException as e:
+            ctx.fail("text sanitiser raised %r on %r" % (e, t), dict(text=repr(t)), tag="text-raised")
+            continue
+        ctx.case(dict(text=repr(t)), nontrivial=any(0xD800 <= ord(c) <= 0xDFFF for c in t), bucket="text")
+        try:
+            out.encode("utf-8")
+        except UnicodeEncodeError:
+            ctx.fail("sanitised text %r is still not valid unicode" % (out,), dict(text=repr(t)), tag="text-invalid")
+        lits.append("{| tx_in := %s; tx_obs := %s |}" % (L.s(t), L.s(out)))
+        cj.append(dict(text=repr(t)))
+    ctx.correspond("text", ["Base", "Wire"], "text_case", "check_text_case", lits, cj, shard=300)
+
+
 def auth_cases(ctx):
     import deep.push.push_service as ps
     import deep.poll.poll as pollmod
@@ -283,6 +308,7 @@ def run(ctx):
     finally:
         e1.restore_clock(saved)
     auth_cases(ctx)
+    text_cases(ctx, 1500 if ctx.thorough else 300)
 
 
 def replay(ctx, data):
